@@ -177,6 +177,15 @@ def _string_new(I, f, a):
        "std::str::<impl str>::to_owned")
 def _to_string(I, f, a):
     v = deref(I, a[0])
+    if hasattr(v, "resolve"):
+        v = v.resolve(I)
+    ty = ((f.get("args") or [""])[0]).lstrip("&")
+    if (isinstance(v, int) and not isinstance(v, bool)) or (is_sym(v) and v.ty in INT_TYPES) or isinstance(v, float) or (is_sym(v) and v.ty in ("f64", "f32")):
+        if ty not in INT_TYPES and ty not in ("f64", "f32"):
+            ty = v.ty if is_sym(v) else ("f64" if isinstance(v, float) else "i64")
+        if isinstance(v, int):
+            return Bytes([("lit", str(v).encode())], True)
+        return Bytes([("disp", v, ty)], True)
     if isinstance(v, Bytes):
         c = v.copy()
         c.is_str = True
@@ -582,6 +591,9 @@ def _oncelock_get_or_init(I, f, a):
         return Ref(Box_(_once_cache[key], "once"), ())
     before = (len(I.run.events), I.run.pos)
     v = I.call_closure(a[1], [])
+    cl = M.deref(I, a[1])
+    if isinstance(cl, Agg) and cl.adt == "closure" and cl.fields:
+        raise I.unanalysable("process-wide lazily initialised value whose initialiser captures state of the calling generator: its content is that of whichever call came first")
     if I.run.pos != before[1]:
         raise I.unanalysable("OnceLock initialiser is not deterministic")
     _once_cache[key] = v
